@@ -93,3 +93,55 @@ package bigbuff
 //@   ensures success : ret1 == nil ==> calls(value) >= 1 && lastres(value, 1) == nil && ret0 == lastres(value, 0)
 //@   ensures failure : ret1 != nil ==> (ret0 == nil && cancelled(ctx)) || (calls(value) >= 1 && is(lastres(value, 1), fatalError) && ret0 == lastres(value, 0) && ret1 == unpacked(lastres(value, 1)))
 //@   ensures unwrapped : ret1 != nil && !(ret0 == nil && cancelled(ctx)) ==> !is(ret1, fatalError)
+
+// ---------------------------------------------------------------------------------------------------
+// C08 — ChanCaster (chancaster.go). Packed state s = (hi32, lo32); M = MaxInt32.
+// Contracts are stated over the values observed by the atomic operations of the call:
+// apre(k) / apost(k) = value before / after the k-th atomic operation (k from 0), atomics() = how many.
+
+//@ type ChanCaster as x
+//@   atomic : state
+//@   frozen : C
+//@   def idle(s) = hi32(s) <= 2147483647 && lo32(s) == hi32(s)
+//@   def sending(s) = hi32(s) <= 2147483647 && lo32(s) == hi32(s) + 2147483647
+//@   def wf(s) = idle(s) || sending(s)
+//@   def pack(d) = (u64(d) << 32) | u64(u32(d))
+
+//@ func (*ChanCaster).Add
+//@   props C08
+//@   mode bv
+//@   panics oob_pos : delta > 2147483647
+//@   panics oob_neg : delta < -2147483647
+//@   ensures-panic oob_untouched : delta > 2147483647 || delta < -2147483647 ==> atomics() == 0
+//@   ensures-panic touched_once : atomics() <= 1
+//@   ensures zero : delta == 0 ==> atomics() == 1 && aop(0) == "Load" && wf(apre(0)) && ret == i64(hi32(apre(0)))
+//@   ensures-panic zero_p : delta == 0 ==> atomics() == 1 && !wf(apre(0))
+//@   ensures zero_quiet : delta == 0 ==> recvd(x.C) == old(recvd(x.C))
+//@   at-call (*sync/atomic.Uint64).Add#0 rlocked : heldR(x.mutex)
+//@   ensures pos : delta > 0 ==> atomics() == 1 && aop(0) == "Add" && apost(0) == apre(0) + pack(delta) && idle(apre(0)) && i64(hi32(apre(0))) + delta <= 2147483647 && ret == i64(hi32(apre(0))) + delta && idle(apost(0))
+//@   ensures-panic pos_p : delta > 0 && delta <= 2147483647 ==> atomics() == 1 && aop(0) == "Add" && !(idle(apre(0)) && i64(hi32(apre(0))) + delta <= 2147483647)
+//@   ensures pos_quiet : delta > 0 ==> recvd(x.C) == old(recvd(x.C))
+//@   ensures neg : delta < 0 ==> atomics() == 1 && aop(0) == "Add" && apost(0) == apre(0) - pack(-delta) && wf(apre(0)) && u32(-delta) <= hi32(apre(0)) && ret == i64(hi32(apre(0))) + delta && wf(apost(0)) && (idle(apost(0)) <==> idle(apre(0)))
+//@   ensures-panic neg_p : delta < 0 && delta >= -2147483647 ==> atomics() == 1 && aop(0) == "Add" && !(wf(apre(0)) && u32(-delta) <= hi32(apre(0)))
+//@   ensures-panic poison_sticky : atomics() == 1 && !wf(apre(0)) ==> !wf(apost(0))
+//@   ensures-panic neg_p_quiet : recvd(x.C) == old(recvd(x.C))
+//@   ensures neg_idle : delta < 0 && lo32(apre(0)) == hi32(apre(0)) ==> recvd(x.C) == old(recvd(x.C))
+//@   ensures neg_absorb : delta < 0 && lo32(apre(0)) != hi32(apre(0)) ==> recvd(x.C) == old(recvd(x.C)) + u64(-delta)
+//@   loop 0 invariant absorbed : 0 <= rangeint_iter && rangeint_iter < delta && recvd(x.C) == old(recvd(x.C)) + u64(rangeint_iter)
+
+//@ func (*ChanCaster).Send
+//@   props C08
+//@   mode bv
+//@   ensures shapes : atomics() == 1 || atomics() == 2 || atomics() == 5
+//@   ensures fast : atomics() == 1 ==> apre(0) == 0 && ret == 0 && sent(x.C) == old(sent(x.C))
+//@   ensures slowzero : atomics() == 2 ==> apre(1) == 0 && ret == 0 && sent(x.C) == old(sent(x.C))
+//@   ensures armed : atomics() == 5 ==> aop(2) == "CompareAndSwap" && apre(2) == apre(1) && idle(apre(2)) && hi32(apre(2)) >= 1 && hi32(apost(2)) == hi32(apre(2)) && lo32(apost(2)) == hi32(apre(2)) + 2147483647
+//@   ensures count : atomics() == 5 ==> sent(x.C) == old(sent(x.C)) + u64(hi32(apre(2)))
+//@   ensures reset : atomics() == 5 ==> aop(4) == "CompareAndSwap" && apre(4) == apre(3) && sending(apre(3)) && hi32(apre(3)) <= hi32(apre(2)) && apost(4) == 0 && ret == i64(hi32(apre(3)))
+//@   ensures-panic arm_p : atomics() == 2 ==> apre(1) != 0 && !idle(apre(1))
+//@   ensures-panic check_p : atomics() == 4 ==> !(sending(apre(3)) && hi32(apre(3)) <= hi32(apre(2))) && sent(x.C) == old(sent(x.C)) + u64(hi32(apre(2)))
+//@   ensures-panic cas_p : atomics() == 5 ==> apre(4) != apre(3) && apost(4) == apre(4)
+//@   ensures-panic shapes_p : atomics() == 2 || atomics() == 4 || atomics() == 5
+//@   at-call (*sync/atomic.Uint64).CompareAndSwap#0 locked : heldW(x.mutex)
+//@   at-call (*sync/atomic.Uint64).CompareAndSwap#1 locked : heldW(x.mutex)
+//@   loop 1 invariant sends : rangeint_iter < receivers && sent(x.C) == old(sent(x.C)) + u64(rangeint_iter) && heldW(x.mutex)
